@@ -78,7 +78,14 @@ def env_value(rng, envs, choices, zero_p=0.25):
     if len(envs) == 1 or rng.random() < 0.4:
         return one()
     d = {}
-    for e in envs:
+    pool = list(envs)
+    if len(pool) >= 2 and rng.random() < 0.45:
+        # one key naming several environments, written with / without blanks around the comma
+        grp = rng.sample(pool, rng.randint(2, len(pool)))
+        sep = rng.choice([", ", ", ", ",", " , ", ",  "])
+        d[sep.join(grp)] = one()
+        pool = [e for e in pool if e not in grp]
+    for e in pool:
         if rng.random() < 0.7:
             d[e] = one()
     if rng.random() < 0.5 or not d:
@@ -314,8 +321,11 @@ def child_run(case, lib, eng=None):
     if case.get("chem") is not None:
         system.chemostats = list(case["chem"])
     option = case["option"]
+    kw = {}
+    if case.get("units"):
+        kw["units_system"] = st.UnitsSystem(**case["units"])
     script = st.RDScript(system, t_sample=[0], time_step=case["dt"], t_max=case["tmax"], sampling_policy="on_iteration",
-                         rng_seed=case["seed"], init_state_processing=case.get("mode", "auto"))
+                         rng_seed=case["seed"], init_state_processing=case.get("mode", "auto"), **kw)
     if eng is None:
         eng = LibRDEngine(lib, option=option, requires_molecules=(option != "euler"))
     common.draws_clear(lib)
@@ -340,9 +350,81 @@ def child_run(case, lib, eng=None):
     arr = engine_io.system_arrays(script, option != "euler")
     arr.pop("us", None)
     ns, nc = traj.nspecies(), traj.ncells()
-    data = np.asarray(traj.data.value, dtype=float).reshape((traj.nsamples(), ns * nc))
+    tdata = traj.data
+    if case.get("units") and case["units"].get("quantity", "molecule") != "molecule":
+        # amounts come back in the script's quantity unit: re-express them in molecules (exact up to one rounding,
+        # which is removed by snapping to the nearest integer for the stochastic engines)
+        usm = script.units_system.copy()
+        usm.quantity = "molecule"
+        tdata = tdata.convert(usm)
+        vals = np.asarray(tdata.value, dtype=float)
+        if option != "euler":
+            r = np.round(vals)
+            vals = np.where(np.abs(vals - r) <= 1e-6 * np.maximum(1.0, np.abs(vals)), r, vals)
+        data = vals.reshape((traj.nsamples(), ns * nc))
+    else:
+        data = np.asarray(tdata.value, dtype=float).reshape((traj.nsamples(), ns * nc))
     return {"t": [float(v) for v in traj.t.value], "x": [[float(v) for v in row] for row in data],
             "draws": [[k, a, b, r] for (k, a, b, r) in draws], "arr": arr, "complete": complete, "iterations": it}
+
+
+def child_run_seq(case, lib):
+    """process history: the scripts in `case["before"]` are run first in the SAME process (on the same engine object when
+    `case["same_object"]`, else on fresh LibRDEngine objects of the one loaded library), then the case itself; the result
+    of the last run is returned"""
+    from strengths.librdengine import LibRDEngine
+    import strengths as st
+    option = case["option"]
+    eng = LibRDEngine(lib, option=option, requires_molecules=(option != "euler")) if case.get("same_object", True) else None
+    for prev in case.get("before", []):
+        e2 = eng or LibRDEngine(lib, option=prev.get("option", option), requires_molecules=(prev.get("option", option) != "euler"))
+        system = build_system(prev["net"], prev["space"])
+        system.state = list(prev["state"])
+        script = st.RDScript(system, t_sample=[0], time_step=case["dt"], t_max=1e9, sampling_policy="on_iteration",
+                             rng_seed=prev["seed"])
+        e2.setup(script)
+        for _ in range(prev.get("iterations", 5)):
+            if not e2.iterate():
+                break
+        e2.get_output()
+        e2.finalize()
+    return child_run(case, lib, eng=eng)
+
+
+TIME_UNIT_S = {"s": Fraction(1), "ms": Fraction(1, 1000), "min": Fraction(60), "h": Fraction(3600), "µs": Fraction(1, 10 ** 6)}
+
+
+def value_in_env(v, env):
+    """the documented meaning of a scalar-or-dictionary constant: the entry of the key that names the environment
+    (keys may name several environments separated by commas, blanks around the names are not significant), else
+    "default", else 0"""
+    if isinstance(v, dict):
+        for key, val in v.items():
+            if key != "default" and env in [p.strip() for p in key.split(",")]:
+                return Fraction(val)
+        if "default" in v:
+            return Fraction(v["default"])
+        return Fraction(0)
+    return Fraction(v)
+
+
+def expected_tables(net, units=None):
+    """the oracle's own k[env][reaction] (forward and reverse direction of every reaction, in that order) and
+    D[species][env] tables in the ENGINE's units, read from the network description: the numbers of the description are
+    in µm / s / molecule; the engine works in the script's space and time units and in molecules, so with the space
+    unit left at µm only the time unit rescales them (per second -> per script time unit)."""
+    tsec = TIME_UNIT_S[(units or {}).get("time", "s")]
+    envs = net["environments"]
+    k = []
+    for env in envs:
+        for r in net["reactions"]:
+            k.append(value_in_env(r.get("k+", 0), env) * tsec)
+            k.append(value_in_env(r.get("k-", 0), env) * tsec)
+    D = []
+    for sp in net["species"]:
+        for env in envs:
+            D.append(value_in_env(sp.get("D", 0), env) * tsec)
+    return k, D
 
 
 # ---------------------------------------------------------------------------------------------
